@@ -293,6 +293,13 @@ func genIP(t *rapid.T, label string) string {
 
 func genGN(t *rapid.T, label string, kinds []string) core.GN {
 	k := rapid.SampledFrom(kinds).Draw(t, label+"-kind")
+	if rapid.IntRange(0, 11).Draw(t, label+"-edgename") == 0 {
+		// values that look like "nothing": the all-zero address, the empty name
+		if k == "ip" {
+			return core.GN{Type: k, Name: rapid.SampledFrom([]string{"0.0.0.0", "255.255.255.255", "0.0.0.1"}).Draw(t, label+"-edgeip")}
+		}
+		return core.GN{Type: k, Name: ""}
+	}
 	switch k {
 	case "ip":
 		return core.GN{Type: k, Name: genIP(t, label+"-ip")}
